@@ -263,6 +263,8 @@ class Compiler:
         self.P.emit('set', line, dst=('l', full + '.tv'), e=v.c.get('tv', C(0)))
         self.env[self.scope + name] = Val('list', len=('l', full), items=[('l', full + f'[{i}]') for i in range(LIST_CAP)], var=('l', full),
                                           tk=('l', full + '.tk'), tv=('l', full + '.tv'))
+        if v.c.get('elem'):
+          self.env[self.scope + name].c['elem'] = v.c['elem']
         return
       if v.ty == 'exc':
         full = self.local(name, 'exc')
@@ -344,6 +346,23 @@ class Compiler:
         lb = self.P.label('forbody')
         self.P.emit('br', s.lineno, e=('op', '<', C(i), it.c['len']), t=lb, f=le)
         self.P.place(lb)
+        if it.c.get('elem'):
+          cands = sorted(o.name for o in self.objects.values() if o.cls == it.c['elem'][1])
+          ln = self.P.label('fornext')
+          for cn in cands:
+            lo, lx = self.P.label('forobj'), self.P.label('forobjskip')
+            if len(cands) > 1:
+              self.P.emit('br', s.lineno, e=('op', '==', it.c['items'][i], C(self.obj_id(cn))), t=lo, f=lx)
+              self.P.place(lo)
+            self.assign(s.target, Val('obj', obj=cn), s)
+            self.loops.append((None, le, len(self.finals)))
+            self.stmts(s.body)
+            self.loops.pop()
+            if len(cands) > 1:
+              self.P.emit('jmp', s.lineno, t=ln)
+              self.P.place(lx)
+          self.P.place(ln)
+          continue
         self.assign(s.target, Val('int', e=it.c['items'][i]), s)
         self.loops.append((None, le, len(self.finals)))
         self.stmts(s.body)
@@ -417,6 +436,8 @@ class Compiler:
         self.P.emit('set', line, dst=('l', n + f'[{i}]'), e=v.c['items'][i])
       self.P.emit('set', line, dst=('l', n + '.tk'), e=v.c.get('tk', C(0)))
       self.P.emit('set', line, dst=('l', n + '.tv'), e=v.c.get('tv', C(0)))
+      if v.c.get('elem'):
+        slot['elem'] = v.c['elem']
     elif v.ty in ('none', 'obj', 'iter', 'prim', 'str', 'retset'):
       slot['static'] = v
     else:
@@ -638,8 +659,11 @@ class Compiler:
   def e_BoolOp(self, e):
     """`and` / `or` with python's short-circuit evaluation (later operands may contain pre-emption points)."""
     is_or = isinstance(e.op, ast.Or)
-    lend = self.P.label('boolop_end')
     first = self.expr(e.values[0])
+    if first.ty in ('tuple', 'none', 'str') and len(e.values) == 2:
+      truthy = bool(first.c.get('items')) if first.ty == 'tuple' else (bool(first.c.get('s')) if first.ty == 'str' else False)
+      return first if (truthy == is_or) else self.expr(e.values[1])     # statically decided
+    lend = self.P.label('boolop_end')
     if is_or and first.ty in ('exc', 'none'):
       rty = 'exc'
     elif is_or and first.ty == 'int':
@@ -936,6 +960,9 @@ class Compiler:
           self.err(e, f'exception argument {v.ty}')
     return Val('exc', kind=C(kind), val=val)
 
+  def obj_id(self, name):
+    return 1 + sorted(self.objects).index(name)
+
   def empty_list(self):
     return Val('list', len=C(0), items=[C(0)] * LIST_CAP)
 
@@ -1024,8 +1051,18 @@ class Compiler:
           self.P.emit('set', line, dst=('l', var[1] + '.tk'), e=v.c['kind'])
           self.P.emit('set', line, dst=('l', var[1] + '.tv'), e=v.c['val'])
           return Val('none')
+        if v.ty == 'obj':
+          # a list of modelled objects holds their ids; iteration dispatches on the id (see s_For)
+          cls = self.objects[v.c["obj"]].cls
+          if t.c.get('elem', ('obj', cls)) != ('obj', cls) or (t.c.get('elem') is None and not (isinstance(t.c['len'], tuple) and t.c['len'][0] in ('l', 'g'))):
+            self.err(e, 'append of an object to a list of something else')
+          t.c['elem'] = ('obj', cls)
+          self.P.emit('lappend', line, var=var, e=C(self.obj_id(v.c['obj'])))
+          return Val('none')
         if v.ty not in ('int', 'bool'):
           self.err(e, f'append of {v.ty}')
+        if t.c.get('elem'):
+          self.err(e, 'append of an int to a list of objects')
         self.P.emit('lappend', line, var=var, e=v.c['e'])
         return Val('none')
       if name == 'extend':
@@ -1068,6 +1105,19 @@ class Compiler:
           if blocking is not None and blocking.ty == 'bool' and blocking.c['e'] == FALSE:
             dst = self.local(self.fresh('acq'), 'bool')
             self.P.emit('tryacq', line, lock=lock, dst=('l', dst))
+            return Val('bool', e=('l', dst))
+          if blocking is not None and blocking.ty in ('bool', 'int') and blocking.c['e'] != TRUE:
+            # run-time flag: blocking acquire or try-acquire
+            dst = self.local(self.fresh('acq'), 'bool')
+            lb, lt, le = self.P.label('acq_blocking'), self.P.label('acq_try'), self.P.label('acq_end')
+            self.P.emit('br', line, e=self.truth(blocking, e), t=lb, f=lt)
+            self.P.place(lb)
+            self.P.emit('acq', line, lock=lock)
+            self.P.emit('set', line, dst=('l', dst), e=TRUE)
+            self.P.emit('jmp', line, t=le)
+            self.P.place(lt)
+            self.P.emit('tryacq', line, lock=lock, dst=('l', dst))
+            self.P.place(le)
             return Val('bool', e=('l', dst))
           self.P.emit('acq', line, lock=lock)
           return Val('bool', e=TRUE)
@@ -1213,7 +1263,10 @@ class Compiler:
       return Val('exc', kind=('l', n), val=('l', n + '.val'))
     if tys == {'list'}:
       n = slot['name'] + '.list'
-      return Val('list', len=('l', n), items=[('l', n + f'[{i}]') for i in range(LIST_CAP)], var=('l', n), tk=('l', n + '.tk'), tv=('l', n + '.tv'))
+      r = Val('list', len=('l', n), items=[('l', n + f'[{i}]') for i in range(LIST_CAP)], var=('l', n), tk=('l', n + '.tk'), tv=('l', n + '.tv'))
+      if slot.get('elem'):
+        r.c['elem'] = slot['elem']
+      return r
     self.err(node, f'mixed return types {tys}')
 
 
